@@ -97,9 +97,11 @@ class RunResult:
 
 
 class Scheduler:
-    def __init__(self, targets=(), skip=None, step_timeout=30.0):
+    def __init__(self, targets=(), skip=None, step_timeout=30.0, on_line=None):
         self.targets = set(targets)          # code objects whose lines are scheduling points
         self.skip = skip                     # skip(code, lineno) -> True: that line is NOT a scheduling point
+        self.on_line = on_line               # on_line(frame): called on the traced thread at every line event of a
+                                             # target, before `skip` (tracing is off inside it, as in any trace function)
         self.gate = {}                       # tid -> Lock the parked thread waits on
         self.mgate = threading.Lock()        # the driving (main) thread waits on this while threads run
         self.mgate.acquire()
@@ -207,6 +209,8 @@ class Scheduler:
 
     def _local_trace(self, frame, event, arg):
         if event == "line" and not self.aborting:
+            if self.on_line is not None:
+                self.on_line(frame)
             if self.skip is None or not self.skip(frame.f_code, frame.f_lineno):
                 self._park(("line", frame.f_code.co_name, frame.f_lineno))
         return self._local_trace
